@@ -245,6 +245,33 @@ def mergeOverlapCells (ms : List MObj) : List MObj :=
   let sel := cells.foldl (selectStep st.heap) (st.matrix, [])
   sel.2.reverse.map fun c => { ref := c.2, rect := heapGet st.heap c.1 }
 
+/-! ### what the normalisation is meant to compute (Spec)
+
+Left to right over the list, keeping the *live* ranges: a new rectangle absorbs every live range it
+meets into their common bounding box; the others stay, in order, and the box goes to the end. The
+one-pass code is exact as long as the box meets none of the ranges that stay — a **hazard** otherwise
+(`none`): that is the case the code does not re-check. -/
+
+/-- two rectangles share a cell (interval test) -/
+def meetsB (a b : Rect) : Bool :=
+  decide (a.c1 ≤ b.c2 ∧ b.c1 ≤ a.c2 ∧ a.r1 ≤ b.r2 ∧ b.r1 ≤ a.r2)
+
+/-- bounding box -/
+def bbox (a b : Rect) : Rect :=
+  ⟨min a.c1 b.c1, min a.r1 b.r1, max a.c2 b.c2, max a.r2 b.r2⟩
+
+def normStep (live : List Rect) (q : Rect) : Option (List Rect) :=
+  let keep := live.filter fun k => !meetsB q k
+  let box := (live.filter fun k => meetsB q k).foldl bbox q
+  if keep.any (fun k => meetsB box k) then none else some (keep ++ [box])
+
+/-- `some L`: no hazard anywhere, `L` is the disjoint normal form; `none`: a bounding box bridged into a
+range the new rectangle itself did not meet -/
+def normSpec (rs : List Rect) : Option (List Rect) :=
+  rs.foldl (fun acc q => match acc with
+    | some live => normStep live q
+    | none => none) (some [])
+
 /-! ### payloads -/
 
 /-- the Go setter a write goes through; its skeleton is looked up in the facts -/
